@@ -34,6 +34,10 @@ func mkPolicy(id string, content int, name string, idx uint64) *structs.ACLPolic
 		name = "policy-" + id
 	}
 	p := &structs.ACLPolicy{ID: uuid("a0a0a0a0", id), Name: name, Rules: fmt.Sprintf(`key_prefix "%s%d" { policy = "read" }`, id, content)}
+	if content == 3 { // differs from content 1 only in the description
+		p.Rules = fmt.Sprintf(`key_prefix "%s%d" { policy = "read" }`, id, 1)
+		p.Description = "three"
+	}
 	p.ModifyIndex, p.CreateIndex = idx, createIdx(idx)
 	p.SetHash(true)
 	return p
@@ -45,6 +49,10 @@ func mkRole(id string, content int, name string, idx uint64) *structs.ACLRole {
 	}
 	r := &structs.ACLRole{ID: uuid("b0b0b0b0", id), Name: name, Description: fmt.Sprintf("content %d", content),
 		ServiceIdentities: structs.ACLServiceIdentities{{ServiceName: "web"}}}
+	if content == 3 { // differs from content 1 only in its policy links
+		r.Description = "content 1"
+		r.Policies = []structs.ACLRolePolicyLink{{ID: uuid("a0a0a0a0", "a")}}
+	}
 	r.ModifyIndex, r.CreateIndex = idx, createIdx(idx)
 	r.SetHash(true)
 	return r
@@ -53,6 +61,14 @@ func mkRole(id string, content int, name string, idx uint64) *structs.ACLRole {
 func mkToken(id string, content int, local bool, idx uint64) *structs.ACLToken {
 	t := &structs.ACLToken{AccessorID: uuid("c0c0c0c0", id), SecretID: uuid("d0d0d0d0", id), Description: fmt.Sprintf("content %d", content), Local: local,
 		ServiceIdentities: structs.ACLServiceIdentities{{ServiceName: "web"}}}
+	switch content {
+	case 3: // differs from content 1 only in its role links
+		t.Description = "content 1"
+		t.Roles = []structs.ACLTokenRoleLink{{ID: uuid("b0b0b0b0", "a")}}
+	case 4: // differs from content 1 only in its policy links
+		t.Description = "content 1"
+		t.Policies = []structs.ACLTokenPolicyLink{{ID: uuid("a0a0a0a0", "a")}}
+	}
 	t.ModifyIndex, t.CreateIndex = idx, createIdx(idx)
 	t.SetHash(true)
 	return t
@@ -84,9 +100,16 @@ type combo struct {
 	// extra local-only rows (tokens): a local-scoped token that must stay untouched
 }
 
-func enumerate(nIDs int, withRename bool) []combo {
-	lvars := []rvar{{}, {Present: true, Content: 1}, {Present: true, Content: 2}}
-	rvars := []rvar{{}, {true, 1, 5, ""}, {true, 1, 15, ""}, {true, 2, 5, ""}, {true, 2, 15, ""}}
+func enumerate(nIDs int, withRename bool, contents ...int) []combo {
+	lvars := []rvar{{}}
+	rvars := []rvar{{}}
+	if len(contents) == 0 {
+		contents = []int{1, 2}
+	}
+	for _, ct := range contents {
+		lvars = append(lvars, rvar{Present: true, Content: ct})
+		rvars = append(rvars, rvar{true, ct, 5, ""}, rvar{true, ct, 15, ""})
+	}
 	var out []combo
 	var rec func(i int, l, r []rvar)
 	rec = func(i int, l, r []rvar) {
@@ -150,7 +173,8 @@ func Run(c *ev.Ctx) {
 	note := func(k string) { omu.Lock(); outcomes[k] = true; omu.Unlock() }
 
 	runACL := func(kind string, nIDs int) {
-		cs := enumerate(nIDs, kind != "token")
+		// content 3 (and 4 for tokens) differs from content 1 in links / description only
+		cs := enumerate(nIDs, kind != "token", map[string][]int{"policy": {1, 2, 3}, "role": {1, 2, 3}, "token": {1, 2, 3, 4}}[kind]...)
 		parallel(len(cs), func(ci int) {
 			if c.Expired() {
 				return
@@ -175,6 +199,13 @@ func Run(c *ev.Ctx) {
 				}
 				return defaultName(kind, id)
 			}
+			// the objects that links of content 3 / 4 point to exist in the secondary (they belong to another replication type)
+			if kind == "role" || kind == "token" {
+				apply(structs.ACLPolicySetRequestType, &structs.ACLPolicyBatchSetRequest{Policies: structs.ACLPolicies{mkPolicy("a", 1, "", 0)}})
+			}
+			if kind == "token" {
+				apply(structs.ACLRoleSetRequestType, &structs.ACLRoleBatchSetRequest{Roles: structs.ACLRoles{mkRole("a", 1, "", 0)}, AllowMissingLinks: true})
+			}
 			// local state
 			for k, lv := range cb.Local {
 				if !lv.Present {
@@ -186,7 +217,7 @@ func Run(c *ev.Ctx) {
 				case "role":
 					apply(structs.ACLRoleSetRequestType, &structs.ACLRoleBatchSetRequest{Roles: structs.ACLRoles{mkRole(ids[k], lv.Content, defaultName(kind, ids[k]), 0)}, AllowMissingLinks: true})
 				case "token":
-					apply(structs.ACLTokenSetRequestType, &structs.ACLTokenBatchSetRequest{Tokens: structs.ACLTokens{mkToken(ids[k], lv.Content, false, 0)}, FromReplication: true})
+					apply(structs.ACLTokenSetRequestType, &structs.ACLTokenBatchSetRequest{Tokens: structs.ACLTokens{mkToken(ids[k], lv.Content, false, 0)}, FromReplication: true, AllowMissingLinks: true})
 				}
 			}
 			if kind == "token" {
@@ -206,15 +237,15 @@ func Run(c *ev.Ctx) {
 				case "policy":
 					p := mkPolicy(ids[k], rv.Content, name(rv, ids[k]), rv.Index)
 					remote.Policies = append(remote.Policies, p)
-					want[p.ID] = fmt.Sprintf("%x", p.Hash)
+					want[p.ID] = renderPolicy(p)
 				case "role":
 					r := mkRole(ids[k], rv.Content, name(rv, ids[k]), rv.Index)
 					remote.Roles = append(remote.Roles, r)
-					want[r.ID] = fmt.Sprintf("%x", r.Hash)
+					want[r.ID] = renderRole(r)
 				case "token":
 					t := mkToken(ids[k], rv.Content, false, rv.Index)
 					remote.Tokens = append(remote.Tokens, t)
-					want[t.AccessorID] = fmt.Sprintf("%x", t.Hash)
+					want[t.AccessorID] = renderToken(t)
 				}
 			}
 			equalBefore := fmt.Sprint(localSet(w, kind)) == fmt.Sprint(want)
@@ -360,17 +391,17 @@ func localSet(w *world.World, kind string) map[string]string {
 			if p.ID == structs.ACLPolicyGlobalManagementID || strings.HasPrefix(p.ID, "00000000-0000-0000-0000-00000000000") {
 				continue
 			}
-			out[p.ID] = fmt.Sprintf("%x", p.Hash)
+			out[p.ID] = renderPolicy(p)
 		}
 	case "role":
 		_, l, _ := st.ACLRoleList(nil, "", nil)
 		for _, r := range l {
-			out[r.ID] = fmt.Sprintf("%x", r.Hash)
+			out[r.ID] = renderRole(r)
 		}
 	case "token":
 		_, l, _ := st.ACLTokenList(nil, false, true, "", "", "", nil, nil)
 		for _, t := range l {
-			out[t.AccessorID] = fmt.Sprintf("%x", t.Hash)
+			out[t.AccessorID] = renderToken(t)
 		}
 	}
 	return out
@@ -419,4 +450,28 @@ func createIdx(modify uint64) uint64 {
 		return 3
 	}
 	return modify
+}
+
+// the content of an object as the harness sees it (not the hash the replicator itself computes and compares)
+func renderPolicy(p *structs.ACLPolicy) string {
+	return fmt.Sprintf("name=%s desc=%q rules=%q", p.Name, p.Description, p.Rules)
+}
+
+func renderRole(r *structs.ACLRole) string {
+	var l []string
+	for _, p := range r.Policies {
+		l = append(l, p.ID)
+	}
+	return fmt.Sprintf("name=%s desc=%q policies=%v svc=%d", r.Name, r.Description, l, len(r.ServiceIdentities))
+}
+
+func renderToken(t *structs.ACLToken) string {
+	var pl, rl []string
+	for _, p := range t.Policies {
+		pl = append(pl, p.ID)
+	}
+	for _, r := range t.Roles {
+		rl = append(rl, r.ID)
+	}
+	return fmt.Sprintf("secret=%s desc=%q local=%v policies=%v roles=%v svc=%d", t.SecretID, t.Description, t.Local, pl, rl, len(t.ServiceIdentities))
 }
